@@ -20,6 +20,7 @@ CONF = 'cache deny all\n'
 FINAL = ('HTTP/1.1 200 OK\r\nDate: %s\r\nContent-Length: 2\r\nCache-Control: no-store\r\n\r\nok' % DATE0).encode('latin1')
 CONTINUE = b'HTTP/1.1 100 Continue\r\n\r\n'
 PORT_PLACEHOLDER = 10000
+BAD_LINES = {'badhex': b'zz\r\n', 'huge': b'fffffffffffffffff\r\n', 'neg': b'-5\r\n', '0x': b'0x5\r\n', 'empty': b'\r\n'}
 
 
 # ------------------------------------------------------------------ the client's message
@@ -135,9 +136,17 @@ def all_cases(ctx):
                 for seg in ('bytes-first', 'bytes-body-first', 'bytes-last'):
                     add('bigsplit', seg=seg, **base)
                 add('bigsplit', seg=sorted(set(br.cuts_around(total, bnd + [hl + x for x in bnd], 0))), **base)
+    # F6 corrupt: a chunked body that is well-formed up to the end of its first chunk and malformed after it; Squid must
+    # stop relaying there and may not complete the upstream message
+    for size in ((2, 8, 2 * k['CLIENT_REQ_BUF_SZ'] + 2, 65538) if not T else (2, 3, 8, 2 * k['CLIENT_REQ_BUF_SZ'] + 2, 65538, 2 * 65536 + 2)):
+        for bad in ('badhex', 'huge', 'neg', '0x', 'empty', 'nocrlf'):
+            for seg in ('after-first', None):
+                for exp in ('none', 'nowait'):
+                    add('corrupt', fr='chunked', ck='halves', size=size, bad=bad, seg=seg, exp=exp)
     # F5 sloworigin: Squid's own socket buffers are small (tcp_recv_bufsize), so is the origin's receive buffer, and the
     # origin does not read until everything has come to a standstill: the body has to wait in Squid's BodyPipe / input buffer
-    slow_sizes = [k['read_ahead_gap'] + 1, 2 * k['read_ahead_gap'] + 1, 65537] + ([2 * 65536 + 1, k['client_request_buffer_max_size'] + 1, (1 << 20) + 1] if T else [])
+    # (BodyPipe capacity is 64 KB: 128 KB+1 is the smallest size in B that overflows pipe + socket buffers)
+    slow_sizes = [k['read_ahead_gap'] + 1, 2 * k['read_ahead_gap'] + 1, 65537, 2 * 65536 + 1] + ([k['client_request_buffer_max_size'] + 1, (1 << 20) + 1] if T else [])
     for m in ('POST', 'PUT'):
         for fr, ck in FR_BIG:
             for size in slow_sizes:
@@ -155,11 +164,12 @@ def all_cases(ctx):
 def describe(c):
     return '%s %s %s/%s size=%d ver=%s expect=%s cut=%s end=%s seg=%s' % (
         c['fam'], c['m'], c['fr'], c['ck'], c['size'], c['ver'], c['exp'], c['cut'], c['end'], c['seg']) + (
-        (' drain=' + c['drain']) if c.get('drain') else '')
+        (' drain=' + c['drain']) if c.get('drain') else '') + ((' bad=' + c['bad']) if c.get('bad') else '')
 
 
 def key_of(c):
     return '%s:%s:%s:expect-%s:%s' % (c['fam'], c['fr'], c['ck'], c['exp'],
+                                      ('malformed-' + c['bad']) if c.get('bad') else
                                       'complete' if c['cut'] is None or c['cut'] == 'full' else 'aborted-' + c['end'])
 
 
@@ -378,20 +388,34 @@ def run_case(w, case):
     stream = head + payload
     cut = cut_offset(case, head, payload)
     sent = stream if cut is None else stream[:cut]
-    cuts = br.expand_cuts(case['seg'], len(sent), len(head))
+    cuts = br.expand_cuts(None if case.get('bad') else case['seg'], len(sent), len(head))
+    if case.get('bad'):
+        # chunked body whose first chunk is fine and whose continuation is malformed: Squid has to stop relaying there
+        n1 = len(body) - len(body) // 2
+        good = head + b'%x\r\n' % n1 + body[:n1]
+        if case['bad'] == 'nocrlf':
+            sent = good + b'XX' + b'%x\r\n' % (len(body) - n1) + body[n1:] + b'\r\n0\r\n\r\n'
+        else:
+            good += b'\r\n'
+            sent = good + BAD_LINES[case['bad']] + body[n1:] + b'\r\n0\r\n\r\n'
+        cuts = [len(good)] if case['seg'] == 'after-first' else []
     if case['exp'] == 'wait' and len(sent) > len(head):
         cuts = sorted(set(cuts + [len(head)]))
     pieces = br.pieces_of(sent, cuts)
     then = None if cut is None else case['end']
     cm = httpref.parse_request(sent)
-    client_complete = cut is None or (cm.complete and not cm.error and cm.body == body)
+    client_complete = (cut is None and not case.get('bad')) or (cm.complete and not cm.error and cm.body == body)
     sent_body_len = len(cm.body) if cm.head_complete else 0
+    if case.get('bad'):
+        if client_complete or sent_body_len > n1:
+            raise HarnessError('corrupt case is not corrupt: %s' % describe(case))
+        sent_body_len = n1
     t = transact(w, case, pieces, len(head), then)
     if t.stalled:
         raise HarnessError('case %s: client could not send its request (back-pressure never released)' % describe(case))
     cls, violation = check_upstream(t, case, path, body, client_complete, sent_body_len)
     r = httpref.parse_response(t.client_bytes, case['m'], eof=t.client_eof)
-    if cut is None and violation is None and not t.body_withheld:
+    if cut is None and violation is None and not t.body_withheld and not case.get('bad'):
         if not (r.complete and not r.error and r.status == 200 and r.body == b'ok'):
             violation = 'the origin answered 200 "ok" to the complete request but the client got %r' % t.client_bytes[:200]
     if case.get('drain'):
